@@ -5,8 +5,15 @@
    File system = finite map  name -> list of lines  (association list; a missing
    key is a file that does not exist).  A line is a whole formatted message: the
    handlers hand one formatted buffer to fwrite per call and test for rotation
-   only between calls, so a file is a list of messages.  The formatter is
-   abstracted to "message m yields m_len bytes".
+   only between calls, so a file is a list of records.  The formatter is
+   abstracted to "message m WANTS m_len bytes, the last one a newline" (the
+   return value of the snprintf-based fmt_func); the handlers' truncation
+   convention for a line that does not fit char buf[MUGGLE_LOG_MSG_MAX_LEN]
+   (fmt_clamp / record_bytes below) turns it into the record handed to fwrite:
+   r_write / t_write are the parts of the write functions under the mutex and
+   take that record; r_log / t_log are the whole write functions.  B is
+   sizeof(buf) = MUGGLE_LOG_MSG_MAX_LEN, re-extracted from the headers on every
+   run (gen/Params_C17.v).
    Not modelled (oracle / environment): failure of fopen/rename/remove, fwrite
    short counts, snprintf failure, DST (local time = UTC + fixed offset). *)
 From Coq Require Export List ZArith Lia Bool.
@@ -16,6 +23,34 @@ Local Open Scope Z_scope.
 (* m_id: identity of the message (its text), m_len: bytes the formatter produces
    (newline included), m_ts: msg->ts.tv_sec (0 = none) *)
 Record msg := { m_id : Z; m_len : Z; m_ts : Z }.
+
+(* ---------------------------------------------------------------------- *)
+(* formatter result and truncation, as in all file handlers:
+     int ret = fmt->fmt_func(msg, buf, sizeof(buf));
+     if (ret >= (int)sizeof(buf)) { ret = (int)sizeof(buf) - 1; buf[ret - 1] = '\n'; }
+     ... fwrite(buf, 1, ret, fp) *)
+Definition wlen (B L : Z) : Z := if L >=? B then B - 1 else L.
+Definition fmt_clamp (B : Z) (m : msg) : msg :=
+  {| m_id := m_id m; m_len := wlen B (m_len m); m_ts := m_ts m |}.
+
+(* the same at byte level.  text = the characters the formatter wants to print;
+   snprintf stores at most B-1 of them followed by a NUL (the rest of buf is
+   indeterminate and is never read below) and returns length text. *)
+Definition NL : Z := 10.
+Definition NUL : Z := 0.
+Definition snprintf_buf (B : nat) (text : list Z) : list Z := firstn (B - 1) text ++ [NUL].
+Fixpoint set_nth (i : nat) (x : Z) (l : list Z) : list Z :=
+  match l, i with
+  | [], _ => []
+  | _ :: r, O => x :: r
+  | a :: r, S j => a :: set_nth j x r
+  end.
+(* the bytes handed to fwrite *)
+Definition record_bytes (B : nat) (text : list Z) : list Z :=
+  let ret := length text in
+  let buf := snprintf_buf B text in
+  if (B <=? ret)%nat then firstn (B - 1) (set_nth (B - 2) NL buf)
+  else firstn ret buf.
 
 (* ---------------------------------------------------------------------- *)
 (* file system *)
@@ -123,7 +158,8 @@ Definition r_init (fs : fsys sname) (max_bytes : Z) (bc : nat) : rh :=
   let h := {| r_fs := fs1; r_open := true; r_offset := off; r_max := max_bytes; r_bc := bc |} in
   if off >=? max_bytes then r_rotate h else h.
 
-(* muggle_log_file_rotate_handler_write; result = bytes written *)
+(* muggle_log_file_rotate_handler_write from the mutex on, m = the record
+   handed to fwrite; result = bytes written *)
 Definition r_write (h : rh) (m : msg) : rh * Z :=
   if r_open h then
     let fs1 := fs_append sname_eqb SLive m (r_fs h) in
@@ -149,6 +185,17 @@ Definition r_step (h : rh) (o : rop) : rh :=
   end.
 
 Definition r_run (h : rh) (ops : list rop) : rh := fold_left r_step ops h.
+
+(* muggle_log_file_rotate_handler_write: format, truncate, write *)
+Definition r_log (B : Z) (h : rh) (m : msg) : rh * Z := r_write h (fmt_clamp B m).
+Definition rop_clamp (B : Z) (o : rop) : rop :=
+  match o with RWrite m => RWrite (fmt_clamp B m) | RRestart mb => RRestart mb end.
+Definition r_step_log (B : Z) (h : rh) (o : rop) : rh :=
+  match o with
+  | RWrite m => fst (r_log B h m)
+  | RRestart mb => r_restart h mb
+  end.
+Definition r_run_log (B : Z) (h : rh) (ops : list rop) : rh := fold_left (r_step_log B) ops h.
 
 (* ---------------------------------------------------------------------- *)
 (* calendar: struct tm from seconds since the epoch (proleptic Gregorian, no
@@ -288,3 +335,14 @@ Definition t_step (h : th) (o : top) : th :=
   end.
 
 Definition t_run (h : th) (ops : list top) : th := fold_left t_step ops h.
+
+(* muggle_log_file_time_rot_handler_write: format, truncate, write *)
+Definition t_log (B : Z) (h : th) (clock : Z) (m : msg) : th * Z := t_write h clock (fmt_clamp B m).
+Definition top_clamp (B : Z) (o : top) : top :=
+  match o with TWrite clock m => TWrite clock (fmt_clamp B m) | TRestart clock => TRestart clock end.
+Definition t_step_log (B : Z) (h : th) (o : top) : th :=
+  match o with
+  | TWrite clock m => fst (t_log B h clock m)
+  | TRestart clock => t_restart h clock
+  end.
+Definition t_run_log (B : Z) (h : th) (ops : list top) : th := fold_left (t_step_log B) ops h.
